@@ -126,6 +126,14 @@ class Translator:
     def t_BinOp(self, n):
         a, b = self.tr(n.left), self.tr(n.right)
         op = n.op
+        if isinstance(a, sp.Tuple) or isinstance(b, sp.Tuple):
+            # list arithmetic: repetition / concatenation
+            if isinstance(op, ast.Mult):
+                lst, k = (a, b) if isinstance(a, sp.Tuple) else (b, a)
+                return sp.Function("repeat")(lst, k)
+            if isinstance(op, ast.Add):
+                return sp.Function("concat")(a, b)
+            raise AnalysisError(f"binary operator on a list not translatable: `{unparse(n)}`")
         if isinstance(op, ast.Add):
             return a + b
         if isinstance(op, ast.Sub):
@@ -252,7 +260,7 @@ class Translator:
             return sp.Or(A(0), A(1))
         if fn == "conjugate" or fn == "conj":
             return sp.conjugate(A(0))
-        if fn is None and isinstance(n.func, ast.Name) and n.func.id == "dict" and not args:
+        if isinstance(n.func, ast.Name) and n.func.id == "dict" and not args:
             return sp.Function("dict")(*[sp.Function("kv_" + k.arg)(self.tr(k.value)) for k in n.keywords if k.arg])
         # method calls: x.method(args) -> method(x, args)
         if isinstance(n.func, ast.Attribute) and npf is None:
